@@ -20,6 +20,7 @@
    lists / key lists; only their key sets and sizes are observable.  PIT entries carry an allocation number p_id
    standing for their identity (pointer) and for their random 32-bit token.  Time is UnixNano as Z. *)
 From Coq Require Import List NArith ZArith Bool.
+From PitCs Require Import GenConsts.
 Import ListNotations.
 Open Scope Z_scope.
 
@@ -81,9 +82,10 @@ Record st := mkst {
   serving : bool; admitting : bool;      (* csServe, csAdmit *)
   dnl_life : Z                     (* deadNonceListLifetime (ns) *) }.
 
-Definition tick_interval : Z := 100000000.      (* expiredPitTickerInterval = 100 ms *)
-Definition default_lifetime : Z := 4000000000.  (* 4000 ms *)
-Definition dnl_batch : nat := 100.
+(* constants re-translated from the Go sources on every run (GenConsts.v); times in ns *)
+Definition tick_interval : Z := gen_tick_ms * 1000000.             (* expiredPitTickerInterval *)
+Definition default_lifetime : Z := gen_default_lifetime_ms * 1000000.  (* lifetime of an Interest that carries none *)
+Definition dnl_batch : nat := gen_dnl_batch.                        (* RemoveExpiredEntries batch *)
 
 (* SetCsCapacity(capacity int): a negative value (a uint64 >= 2^63 converted by fw/mgmt/cs.go) means unlimited (math.MaxInt) *)
 Definition max_int : N := 9223372036854775807.
